@@ -78,7 +78,7 @@ func (p *rprogram) names() []string {
 	return out
 }
 
-var subNames = []string{"x", "y", "b", "case_1", "case_2", "x1", "deep", "1+1", "what?", "[]int", "a(b", "x.y", "a|b", "smoke", "100%"}
+var subNames = []string{"x", "y", "b", "case_1", "case_2", "x1", "deep", "1+1", "what?", "[]int", "a(b", "x.y", "a|b", "smoke", "100%", "amount$usd", "items[0]", "get-all", "get"}
 
 func (g *fgen) rnode(name string, depth int, apis, cfgs []string, maxCalls int) *rnode {
 	n := &rnode{name: name}
